@@ -30,9 +30,16 @@ def histogram(repo, chk, oid):
                f'the histogram needs max(a)+1 zero-initialised slots indexed by the code itself; found size {show(size)[:80]}')
     loops = [n for n in own_nodes(fn.node) if isinstance(n, ast.For)]
     incs = [n for n in own_nodes(fn.node) if isinstance(n, ast.AugAssign) and isinstance(n.target, ast.Subscript) and isinstance(n.target.value, ast.Name) and n.target.value.id == cont]
-    ok = len(loops) == 1 and len(incs) == 1 and term_of(fn, loops[0].iter, inline=False) == ('name', a) and isinstance(loops[0].target, ast.Name) \
-        and isinstance(incs[0].target.slice, ast.Name) and incs[0].target.slice.id == loops[0].target.id and isinstance(incs[0].op, ast.Add) and isinstance(incs[0].value, ast.Constant) and incs[0].value.value == 1 \
-        and not any(isinstance(x, (ast.If, ast.Continue, ast.Break)) for x in ast.walk(loops[0]))
+    ok = False
+    if len(loops) == 1 and len(incs) == 1 and isinstance(loops[0].target, ast.Name):
+        lp, inc = loops[0], incs[0]
+        it = term_of(fn, lp.iter, inline=True)
+        slot = term_of(fn, inc.target.slice, inline=True)
+        v = lp.target.id
+        by_value = it == ('name', a) and slot == ('name', v)                                                        # for val in a: container[val] += 1
+        by_index = it in (E(f'range(len({a}))'), E(f'numba.prange(len({a}))'), E(f'range(0, len({a}))')) and slot == E(f'{a}[{v}]')    # for i in range(len(a)): container[a[i]] += 1
+        ok = (by_value or by_index) and isinstance(inc.op, ast.Add) and isinstance(inc.value, ast.Constant) and inc.value.value == 1 \
+            and not any(isinstance(x, (ast.If, ast.Continue, ast.Break)) for x in ast.walk(lp))
     chk.expect(ok, oid + 'b', 'R9', fn.site(incs[0]) if incs else fn.site(), ast.unparse(loops[0]).replace('\n', ' ')[:100] if loops else 'for val in a: container[val] += 1', 'every element increments the slot of its own code by 1',
                'every element of the vector must increment container[<its code>] by exactly 1, unconditionally (the slot index is the code itself: values are read back as slot indices)')
     rets = returns(fn)
